@@ -249,6 +249,11 @@ impl C01 {
             advance_ledgers(&env, 17280 * days_idle);
             cx.label(if days_idle > 60 { "gateway_idle_for_more_than_60_days" } else { "gateway_idle_for_a_day" });
         }
+        if case.domain / 8 % 4 == 3 {
+            // the owner upgraded the gateway and completed the migration: signer sets, retention and domain are carried over
+            upgrade_and_migrate(&env, &gw.id).map_err(|e| format!("setup: {}", e))?;
+            cx.label("gateway_upgraded_and_migrated_before_the_submission");
+        }
         let dests: Vec<Address> = (0..3).map(|_| Address::generate(&env)).collect();
 
         // prover: newest first
